@@ -133,6 +133,18 @@ def writes (sh : Shape) (len w : Nat) : List Nat := (sh.idx len w).map (·.2)
 def reads (sh : Shape) (len w : Nat) : List Nat :=
   (sh.idx len w).flatMap fun (s, e) => (s.toList ++ [e])
 
+/-- `min_periods.unwrap_or(window / 2).min(window).max(k)` (k = 0 when there is no `.max`) -/
+def effMp (mp : Option Nat) (w k : Nat) : Nat := max (min (mp.getD (w / 2)) w) k
+
+/-- the eight rolling moment / weighted-average statistics of features.rs -/
+inductive Feat where
+  | sum | mean | ewm | wma | std | var | skew | kurt
+deriving DecidableEq, Repr
+
+/-- the `.max(k)` of each entry point (checked against the source by `Generated.maskTable`) -/
+def Feat.minK : Feat → Nat
+  | .std => 2 | .var => 2 | .skew => 3 | .kurt => 4 | _ => 0
+
 /-- an arbitrary *stateful* user callback driven over a call list: results in call order -/
 def runSt (f : σ → γ → σ × β) : σ → List γ → List β
   | _, [] => []
